@@ -463,6 +463,119 @@ def rule_pre(ctx):
     return r
 
 
+def rule_prelegs(ctx):
+    """Processor side of C18-PRE (seed C18_7): legs handed to ``ContractionProcessor.contract_nodes``
+    replace the simulator's own survival computation, so they must come from it —
+    ``compute_contracted(...)`` — and not be one operand's legs taken over unchanged (the counts of
+    shared indices are never summed, the indices never complete and stay on every later
+    intermediate)."""
+    r = RuleResult("C18-PRELEGS", "legs supplied to the path simulator come from its survival rule", 1)
+    cp = ctx.p.cls(C.BASIC, "ContractionProcessor")
+    C.require(cp is not None, "ContractionProcessor not found")
+    scope = list(cp.methods.values())
+    if ctx.tier == "thorough":
+        scope = [f for f in ctx.p.all_funcs() if f.module.path.startswith("cotengra/pathfinders")]
+    for f in scope:
+        fl = None
+        for call in C.method_calls(f, "contract_nodes"):
+            legs = [k.value for k in call.keywords if k.arg == "new_legs"]
+            if len(call.args) >= 3:
+                legs.append(call.args[2])
+            if not legs:
+                continue
+            recv = dotted(call.func.value)
+            if f.cls is not cp and recv in ("tree", "self"):
+                continue
+            fl = fl or ctx.flow(f)
+            at = fl.cfg.containing(call, f.module.parents)
+            key = ctx.key(f, "C18-PRELEGS", C.unparse(legs[0], 30))
+            deps = fl.deps(legs[0], at.id, "may")
+            from_rule = any(d[0] == "call" and d[1].split(".")[-1] in ("compute_contracted", "compute_simplified")
+                            for d in deps)
+            if from_rule:
+                r.ok(key, C.loc(f, call), "supplied legs derive from compute_contracted(...)")
+            else:
+                r.violation(key, C.loc(f, call), f"`new_legs={C.unparse(legs[0], 40)}` does not come from the "
+                            f"survival rule (compute_contracted): appearance counts of shared indices are not "
+                            f"summed, so the indices are never contracted and every later size/flops is too large",
+                            deps=sorted(str(d) for d in deps)[:6])
+    return r
+
+
+def rule_bestpair(ctx):
+    """An optimizer that keeps 'the best so far' reports one figure and returns one path; they
+    describe the same trial only if (a) both attributes are written together and (b) what is
+    handed back is the kept path, not the path of the batch just run (seed C18_8)."""
+    r = RuleResult("C18-BESTPAIR", "the reported best cost and the returned path belong to one trial", 2)
+    c = ctx.p.cls(C.BASIC, "RandomGreedyOptimizer")
+    C.require(c is not None, "RandomGreedyOptimizer not found")
+    pair = ("best_ssa_path", "best_flops")
+    for f in c.methods.values():
+        if f.name == "__init__":
+            continue
+        writes = {}
+        for n in walk_local(f.node):
+            if isinstance(n, ast.Assign):
+                for t in n.targets:
+                    if isinstance(t, ast.Attribute) and dotted(t.value) == "self" and t.attr in pair:
+                        writes.setdefault(t.attr, []).append(n)
+        if not writes:
+            continue
+        key = ctx.key(f, "C18-BESTPAIR", "together")
+        parents = f.module.parents
+        ok = set(writes) == set(pair)
+        if ok:
+            for a in writes[pair[0]]:
+                blk = _blk(parents, a)
+                if not any(any(b is x for x in blk) for b in writes[pair[1]]):
+                    ok = False
+        if ok:
+            r.ok(key, f.loc, "best path and best cost are replaced in the same block")
+        else:
+            r.violation(key, f.loc, f"{sorted(writes)} written without the other half of {pair}: the "
+                        f"reported cost and the kept path come from different trials")
+        # the guard compares the new cost with the kept cost
+        key = ctx.key(f, "C18-BESTPAIR", "guard")
+        for a in writes.get(pair[1], []):
+            ifs = C.enclosing_ifs(f, a)
+            g = ifs[0][0].test if ifs else None
+            good = isinstance(g, ast.Compare) and isinstance(g.ops[0], (ast.Lt, ast.LtE)) and \
+                "best_flops" in C.unparse(g.comparators[0]) and C.unparse(g.left) == C.unparse(a.value)
+            good = good or (isinstance(g, ast.Compare) and isinstance(g.ops[0], (ast.Gt, ast.GtE)) and
+                            "best_flops" in C.unparse(g.left) and C.unparse(g.comparators[0]) == C.unparse(a.value))
+            if good:
+                r.ok(key, C.loc(f, a), f"kept iff `{C.unparse(g)}`")
+            else:
+                r.violation(key, C.loc(f, a), "the best cost is replaced without comparing the new cost "
+                            "with it", guard=C.unparse(g) if g is not None else "none")
+        # returns
+        key = ctx.key(f, "C18-BESTPAIR", "returns")
+        fl = ctx.flow(f)
+        for ret in [n for n in walk_local(f.node) if isinstance(n, ast.Return) and n.value is not None]:
+            v = ret.value
+            at = fl.cfg.containing(ret, parents)
+            good = dotted(v) == f"self.{pair[0]}"
+            if not good and isinstance(v, ast.Name):
+                defs = [d for d in fl.defs_reaching(v.id, at.id)]
+                good = bool(defs) and all(d.value is not None and dotted(d.value) == f"self.{pair[0]}" for d in defs)
+            if good:
+                r.ok(key, C.loc(f, ret), "returns the kept best path")
+            else:
+                r.violation(key, C.loc(f, ret), f"`{C.unparse(ret, 50)}` hands back the path of the batch just "
+                            f"run, while best_flops (the reported figure, and the score a reusable wrapper "
+                            f"stores) stays at the best seen so far")
+    return r
+
+
+def _blk(parents, st):
+    p = parents.get(st)
+    for fld in ("body", "orelse", "finalbody"):
+        b = getattr(p, fld, None)
+        if isinstance(b, list) and any(s is st for s in b):
+            return b
+    return [st]
+
+
 def rule_report(ctx):
     """Shared with C08-REFRESH: the costs an optimizer reports for its result are those
     of the tree it returns only if they are refreshed after every in-place
@@ -474,4 +587,4 @@ def rule_report(ctx):
                         lambda i: True, 3)
 
 
-RULES = [rule_surv, rule_appear, rule_drop, rule_pre, rule_report]
+RULES = [rule_surv, rule_appear, rule_drop, rule_pre, rule_prelegs, rule_bestpair, rule_report]
